@@ -14,6 +14,7 @@ from vf.gast import grammar_text, node_types, shrink_rules, tup
 from vf.refpeg import Ref, RefFailedSemantics
 
 PROPERTY = 'C06'
+HISTORY_CONFIRM = True   # a failure that needs the process history is confirmed by re-running its shard from the seed
 RULE = ('C01-style generated grammars with rule parameters and @nomemo rules x 5 inputs x a semantics object drawn from {identity, tagging '
         '(wraps the value with rule name and parameters), _default only, mixed named methods + _default, fail-on-value (FailedSemantics when '
         'the AST equals a value taken from the reference trace), raise-on-value with an exception class from {KeyError, IndexError, '
